@@ -186,6 +186,52 @@ def run(ctx):
         if got != fresh[probe]:
             ctx.violation("the result of a probe depends on what the process assembled before", {"history": hist, "probe": probe},
                           expected=repr(fresh[probe])[:300], observed=repr(got)[:300])
+    # ------------------------------------------------------------------ (b2) histories over files on disk: the same included
+    # files (same path, same text) are met again and again, some with tokens that report or evaluate only once per parse
+    # (8/9 in an octal number, a character literal under the output charset, a '.repeat' error flag), under several charsets
+    d = impl.scratch_dir()
+    try:
+        disk = {
+            "ok.mac": "tab: .word 1, 2\nlen = . - tab\n",
+            "bad8.mac": "rows = 19\n.word rows\n",
+            "chr.mac": ".word 'Ж\n.ascii \"Жук\"\n.even\n",
+            "rep.mac": ".repeat 2 { lab9: nop }\n",
+            "warn.mac": "clr @r1\n.word 'a'\n",
+            "once.mac": ".once\nk1 = 5\n.word k1\n",
+            "deep.mac": ".include \"ok.mac\"\n.include \"chr.mac\"\n",
+        }
+        for fn, t in disk.items():
+            with open(os.path.join(d, fn), "w", encoding="utf-8") as f:
+                f.write(t)
+        mains = []
+        for inc in ["ok.mac", "bad8.mac", "chr.mac", "rep.mac", "warn.mac", "once.mac", "deep.mac"]:
+            mains.append("nop\n.include \"%s\"\nhalt\n" % inc)
+            mains.append(".include \"%s\"\n.include \"%s\"\n" % (inc, "once.mac"))
+        charsets = ["bk", "koi8-r", "cp1251", "utf-8"]
+
+        def run_disk(mt, cs):
+            r = impl.assemble([(os.path.join(d, "main.mac"), mt)], charset=cs, timeout=10)
+            return (r.outcome, r.base, r.code, tuple(sorted((dg[0], dg[1], tuple((os.path.basename(p[0] or ""), p[1], p[2]) for p in dg[2])) for dg in r.diags)))
+        jobs_d = [(mt, cs) for mt in mains for cs in charsets]
+        fresh_d = {}
+        for job in (jobs_d if ctx.thorough else rng.sample(jobs_d, 16)):
+            impl.load(fresh=True)
+            fresh_d[job] = run_disk(*job)
+        for _ in range(120 if ctx.thorough else 25):
+            impl.load(fresh=True)
+            hist = [rng.choice(jobs_d) for _ in range(rng.randint(1, 12))]
+            for job in hist:
+                run_disk(*job)
+            probe = rng.choice(sorted(fresh_d))
+            got = run_disk(*probe)
+            ctx.case(("disk-history", tuple(hist), probe))
+            ctx.count("histories over files on disk")
+            if got != fresh_d[probe]:
+                ctx.violation("the result of assembling files depends on what the process assembled before (same files, same texts)",
+                              {"files": disk, "history": hist, "probe": probe}, expected=repr(fresh_d[probe])[:400], observed=repr(got)[:400])
+    finally:
+        impl.drop_scratch(d)
+    m = impl.load(fresh=True)
     # ------------------------------------------------------------------ (c)
     batch = POOL_VALID + POOL_INVALID + PROBES
     # programs with many names, several of them defective and never used by code (whatever walks the symbol table, the
